@@ -26,6 +26,7 @@ ASSUMPTIONS = ['ranges are written top-left:bottom-right as Excel stores them (a
 GROUP = ('verdict', 'form')
 
 SH2 = 'Sheet 2'
+SH3 = 'P&L (2)'
 
 
 def base_spec(env):
@@ -40,7 +41,8 @@ def base_spec(env):
         s['C2'] = 'txt'
         del s['D4']
     s['F1:G2'] = {'array': '=A1:B2*2'}
-    return {'sheets': {'S': s, SH2: t}, 'active': 'S',
+    u = {f'{c}{r}': 300 + 10 * r + i for r in range(1, 4) for i, c in enumerate('ABC')}
+    return {'sheets': {'S': s, SH2: t, SH3: u}, 'active': 'S',
             'names': {'nm': ['S', '$B$2'], 'rg': ['S', '$A$1:$A$3'], 'on2': [SH2, '$C$3'], 'rg2': [SH2, '$B$1:$C$2']}}
 
 
@@ -49,6 +51,7 @@ FORMS = [
     ('range', 'SUM(A1:B2)'), ('range-tall', 'SUM(B2:B4)'), ('range-abs', 'SUM($C$1:$D$2)'),
     ('range-other', "SUM('Sheet 2'!A1:B2)"), ('intersect', 'SUM(A1:B3 B2:C4)'), ('intersect-cell', 'SUM(A1:C1 B1:B4)'),
     ('intersect-blank', 'SUM(A4:D4 D1:D4)'), ('intersect-row-col', 'SUM(2:2 C:C)'), ('paren-multi-colon', 'SUM((A1:B2):C3)'),
+    ('punct-sheet', "'P&L (2)'!B2"), ('punct-range', "SUM('P&L (2)'!A1:B2)"), ('punct-col', "SUM('P&L (2)'!C:C)"),
     ('union', 'SUM(A1:A2,C1:C2)'), ('multi-colon', 'SUM(A1:A2:B3)'), ('name-cell', 'nm'), ('name-range', 'SUM(rg)'),
     ('name-other', 'on2'), ('name-range-other', 'SUM(rg2)'), ('col', 'SUM(A:A)'), ('row', 'SUM(2:2)'),
     ('cols', 'SUM(B:C)'), ('col-other', "SUM('Sheet 2'!D:D)"), ('row-fn', 'ROW()'), ('row-ref', 'ROW(B3)'),
@@ -177,7 +180,8 @@ def run_formula(name, text, env, acc, do_consequence):
     # ---- consequence: non-ancestors cannot influence F6
     f6 = by_addr.get('S!F6')
     anc = {n.address.address for n in nx.ancestors(g, f6)} if f6 is not None else set()
-    grid = [f'S!{c}{r}' for r in range(1, 5) for c in 'ABCD'] + [f'{SH2}!{c}{r}' for r in range(1, 5) for c in 'ABCD']
+    grid = [f'S!{c}{r}' for r in range(1, 5) for c in 'ABCD'] + [f'{SH2}!{c}{r}' for r in range(1, 5) for c in 'ABCD'] + \
+        [f'{SH3}!{c}{r}' for r in range(1, 4) for c in 'ABC']
     for x in grid:
         if x in anc:
             continue
